@@ -682,6 +682,20 @@ fn main() {
                     Err(e) => format!("err:{e}"),
                 }
             }
+            "threads" => {
+                // number of live fjall worker threads in this process
+                let mut n = 0;
+                if let Ok(rd) = std::fs::read_dir("/proc/self/task") {
+                    for e in rd.filter_map(|e| e.ok()) {
+                        if let Ok(c) = std::fs::read_to_string(e.path().join("comm")) {
+                            if c.trim().starts_with("fjall:worker") {
+                                n += 1;
+                            }
+                        }
+                    }
+                }
+                format!("workers={n}")
+            }
             "fingerprint" => {
                 // names, sizes and a content hash of every file below a directory
                 fn walk(p: &std::path::Path, out: &mut Vec<String>) {
